@@ -167,7 +167,7 @@ func TestVerif_C27_Classify(t *testing.T) {
 // ---- ordering ----
 
 type vfC27Op struct {
-	Kind  string `json:"k"`           // pkt | new | release
+	Kind  string `json:"k"`           // pkt | new | release | close (drain and close the class's endpoint; a later "new" creates another one)
 	Class int    `json:"c,omitempty"` // 0 DTLS 1 SRTP 2 SRTCP
 }
 
@@ -208,6 +208,19 @@ func vfC27OrderRun(v *vfT, c vfC27OrderCase) {
 	lateWhileParked := false
 	newDuringQueueing := false
 	newStarted := map[int]bool{}
+	gotAll := map[int][][]byte{} // per class: everything read from its successive endpoints, in read order
+	hadEndpoint := map[int]bool{}
+	reopened := false
+	rd := make([]byte, 64)
+	drain := func(cl int, e *Endpoint) {
+		for e.buffer.Count() > 0 {
+			n, err := e.Read(rd)
+			if err != nil {
+				v.Violation("C27/order/read", "endpoint read: %v", err)
+			}
+			gotAll[cl] = append(gotAll[cl], append([]byte{}, rd[:n]...))
+		}
+	}
 	dispatching := "" // name of the dispatch actor in flight (the read loop is ONE goroutine)
 	finishDispatch := func() {
 		if dispatching == "" {
@@ -257,6 +270,10 @@ func vfC27OrderRun(v *vfT, c vfC27OrderCase) {
 				continue
 			}
 			newStarted[op.Class] = true
+			if hadEndpoint[op.Class] {
+				reopened = true
+			}
+			hadEndpoint[op.Class] = true
 			if dispatching != "" && !actors.Done(dispatching) {
 				newDuringQueueing = true
 			}
@@ -268,6 +285,22 @@ func vfC27OrderRun(v *vfT, c vfC27OrderCase) {
 				epsMu <- struct{}{}
 			})
 			vfSettle(gates, actors)
+		case "close":
+			finishDispatch()
+			<-epsMu
+			e := eps[op.Class]
+			delete(eps, op.Class)
+			epsMu <- struct{}{}
+			if e == nil {
+				continue // no endpoint of this class, or its NewEndpoint is still parked
+			}
+			// nothing is in flight (one dispatch at a time, and it has returned): what the endpoint
+			// holds is read first, so closing it loses nothing
+			drain(op.Class, e)
+			if err := e.Close(); err != nil {
+				v.Violation("C27/order/close", "endpoint close: %v", err)
+			}
+			newStarted[op.Class] = false
 		case "release":
 			if len(gates.Parked()) > 0 {
 				gates.Release(0)
@@ -299,16 +332,19 @@ func vfC27OrderRun(v *vfT, c vfC27OrderCase) {
 	if r["mux.log.warn"] > 0 {
 		v.Label("reached:mux.log.warn")
 	}
-	rd := make([]byte, 64)
-	for cl, e := range eps {
-		var got [][]byte
-		for e.buffer.Count() > 0 {
-			n, err := e.Read(rd)
-			if err != nil {
-				v.Violation("C27/order/read", "endpoint read: %v", err)
-			}
-			got = append(got, append([]byte{}, rd[:n]...))
+	if reopened {
+		v.Label("class-reopened-after-close")
+		v.NonTrivial()
+	}
+	// a class whose endpoint was closed gets a last endpoint, so that what arrived since is collected
+	for cl := range hadEndpoint {
+		if eps[cl] == nil {
+			eps[cl] = m.NewEndpoint(vfC27Matchers[cl])
 		}
+	}
+	for cl, e := range eps {
+		drain(cl, e)
+		got := gotAll[cl]
 		want := sent[cl]
 		if len(got) != len(want) {
 			v.Violation("C27/order/count", "endpoint %s read %d datagrams, %d of its class arrived: got %s want %s", vfC27Names[cl], len(got), len(want), vfC27Seqs(got), vfC27Seqs(want))
@@ -333,7 +369,7 @@ func vfC27Seqs(ps [][]byte) string {
 }
 
 var vfC27OrderOpts = vfOpts{
-	Rule: "op sequences over {datagram of class DTLS/SRTP/SRTCP arrives, NewEndpoint(class), release the parked pending-queue flush}; dispatch runs on one goroutine as in the read loop; the mux's own log call inside the no-endpoint branch of dispatch is a second schedule point (mux.log.warn); non-trivial = a datagram arrived while NewEndpoint was parked before registering, or NewEndpoint was started while a datagram was in the middle of being queued",
+	Rule: "op sequences over {datagram of class DTLS/SRTP/SRTCP arrives, NewEndpoint(class), release the parked pending-queue flush, drain and close the class's endpoint (a later NewEndpoint of the class must not see anything twice)}; dispatch runs on one goroutine as in the read loop; the mux's own log call inside the no-endpoint branch of dispatch is a second schedule point (mux.log.warn); non-trivial = a datagram arrived while NewEndpoint was parked before registering, or NewEndpoint was started while a datagram was in the middle of being queued, or a class got a second endpoint after its first was closed",
 	Assumptions: []string{"at most maxPendingPackets (15) datagrams are pending at any time (the queue cap is outside the statement)",
 		"interleaving explored at the verif yield point mux.pending.entry; if the tree no longer reaches it the schedule degrades to the natural one (label gate-not-reached)"},
 }
@@ -369,7 +405,7 @@ func TestVerif_C27_OrderRandom(t *testing.T) {
 		var c vfC27OrderCase
 		n := rapid.IntRange(2, 24).Draw(v.R, "n")
 		for i := 0; i < n; i++ {
-			k := rapid.SampledFrom([]string{"pkt", "pkt", "pkt", "new", "release"}).Draw(v.R, "kind")
+			k := rapid.SampledFrom([]string{"pkt", "pkt", "pkt", "pkt", "new", "new", "release", "close"}).Draw(v.R, "kind")
 			c.Ops = append(c.Ops, vfC27Op{k, rapid.IntRange(0, 2).Draw(v.R, "class")})
 		}
 		return c
